@@ -133,13 +133,47 @@ func c14new() (*c14env, *deploymentManager) {
 	if !verif_Symbolic() {
 		bus = pubsub.NewBus() // the real monitor / withdrawal goroutines run natively and need a working bus
 	}
+	updatech, teardownch := c14channels()
 	dm := &deploymentManager{
 		bus: bus, client: c14client{e: e}, session: c14session{},
 		state: dsDeployActive, lease: mtypes.LeaseID{Owner: "o", DSeq: 1, GSeq: 1, OSeq: 1, Provider: "p"}, mgroup: c14groups[0],
-		updatech: make(chan *manifest.Group), teardownch: make(chan struct{}),
+		updatech: updatech, teardownch: teardownch,
 		log: log.NewNopLogger(), lc: lifecycle.New(), hostnameService: c14hostnames{e},
 	}
 	return e, dm
+}
+
+// c14channels: the update and teardown channels exactly as the real newDeploymentManager makes
+// them (their capacity decides when a caller's update()/teardown() returns).  The constructor's
+// own goroutines are not wanted: dropped in the engine, shut down at once natively.
+type c14idleClient struct{ Client }
+
+func (c14idleClient) Deploy(context.Context, mtypes.LeaseID, *manifest.Group) error { return nil }
+func (c14idleClient) TeardownLease(context.Context, mtypes.LeaseID) error          { return nil }
+func (c14idleClient) LeaseStatus(context.Context, mtypes.LeaseID) (*ctypes.LeaseStatus, error) {
+	return nil, errors.New("not ready")
+}
+
+func c14channels() (chan *manifest.Group, chan struct{}) {
+	ctx, cancel := context.WithCancel(context.Background())
+	defer cancel()
+	s := &service{log: log.NewNopLogger(), bus: c14bus{}, client: c14idleClient{}, session: c14session{}, lc: lifecycle.New(),
+		managerch: make(chan *deploymentManager, 1)}
+	if !verif_Symbolic() {
+		s.hostnames = newHostnameService(ctx, Config{})
+		s.lc.ShutdownInitiated(nil) // the throw-away manager stops as soon as it looks
+	}
+	dm := newDeploymentManager(s, mtypes.LeaseID{Owner: "o", DSeq: 9, GSeq: 1, OSeq: 1, Provider: "p"}, &manifest.Group{Name: "throw-away"})
+	if verif_Symbolic() {
+		verif_DropTasks()
+	} else {
+		select {
+		case <-dm.lc.Done():
+		case <-time.After(3 * time.Second):
+		}
+		s.lc.ShutdownCompleted()
+	}
+	return make(chan *manifest.Group, cap(dm.updatech)), make(chan struct{}, cap(dm.teardownch))
 }
 
 func c14oracle(e *c14env, returned bool, quiescent bool) {
@@ -212,6 +246,8 @@ func c14symbolic(steps int) {
 		e.add(c14call{what: "TeardownRequested", start: verif_Clock()})
 		return struct{}{}
 	})
+	verif_EnvCaller(dm.updatech) // the cluster service calls update() and teardown(): with a buffered
+	verif_EnvCaller(dm.teardownch) // channel the call returns when the request is queued
 	verif_EnvFinal(dm.lc.ShutdownRequest(), "shutdown", 1, func() interface{} {
 		verif_Pick("shutdown", 1)
 		e.add(c14call{what: "Shutdown", start: verif_Clock()})
@@ -316,7 +352,15 @@ func c14native() {
 func c14(steps int) {
 	if verif_Symbolic() {
 		c14symbolic(steps)
-	} else {
+		return
+	}
+	// with buffered request channels the manager's select may pick either of two queued requests:
+	// the native run is repeated so that a schedule the engine found shows up
+	reps := 1
+	if u, t := c14channels(); cap(u)+cap(t) > 0 {
+		reps = 16
+	}
+	for i := 0; i < reps; i++ {
 		c14native()
 	}
 }
